@@ -357,7 +357,9 @@ def milk(index, rep):
               loc=loc(PARAMS, im))
     tm = index.func(ANIM, "CalculateFeedAndMeat.get_total_milk_bearing_animals")
     txt = norm_src(tm)
-    rep.check("if 'milk' in animal.animal_type" in txt and "+= np.array(animal.population)" in txt, rule, "milk-bearing = sum of milk species' populations",
+    import re as _re
+    m_ = _re.search(r"if 'milk' in (\w+)\.animal_type", txt)
+    rep.check(bool(m_) and f"+= np.array({m_.group(1)}.population)" in txt, rule, "milk-bearing = sum of milk species' populations",
               "get_total_milk_bearing_animals no longer sums the population of the milk species", loc=loc(ANIM, tm))
     rep.require_min(rule, 5)
 
